@@ -30,9 +30,9 @@ fixed('C10', '62a93ce', '_find_first_object scanned range(0, max_level): a model
 fixed('C04', 'b0251cf', 'OMEN levels with equal pcfg_omen_prob were merged into one group of which only values[0] was ever generated', {'pcfg_omen_prob.txt': '3\\t0.0 / 5\\t0.0'}, 'F-C04')
 fixed('C02', 'b0251cf', 'same defect seen as language loss: the merged levels were never emitted', {'pcfg_omen_prob.txt': 'two levels with equal probability'}, 'F-C04')
 
-finding('C15', 'final-markov-preterminal', 'quit inside the Markov level of the FINAL pre-terminal of the run: queue is empty afterwards, the "Done" path returns without saving, --load restarts the session from the beginning (F-C15b)', {'ruleset': 'base structures D1/M/O1 where the least probable pre-terminal is an OMEN level', 'cut': 'any j inside that level'}, 'F-C15b')
+fixed('C15', '12a4608', 'quit inside the Markov level of the FINAL pre-terminal of the run: the queue is empty afterwards and the "Done" path returned without saving, so --load restarted the session from the beginning', {'ruleset': 'base structures D1/M/O1 where the least probable pre-terminal is an OMEN level', 'cut': 'any j inside that level'}, 'F-C15b')
 
-finding('C12', 'final-markov-preterminal', 'same defect as F-C15b seen from C12: an explicit quit that lands inside the Markov level of the final pre-terminal stops the run without the session state being saved', {'schedule': 'q delivered (or its flag set) while the last pre-terminal, an OMEN level, is being generated'}, 'F-C15b')
+fixed('C12', '12a4608', 'quit inside the Markov level of the FINAL pre-terminal of the run: the queue is empty afterwards and the "Done" path returned without saving, so --load restarted the session from the beginning (seen from C12: an explicit quit that does not save the session state)', {'ruleset': 'base structures D1/M/O1 where the least probable pre-terminal is an OMEN level', 'cut': 'any j inside that level'}, 'F-C15b')
 fixed('C05', 'c17c8e5', 'password containing U+0130 (the only character whose lower() is longer than itself): e-mail / website / alpha detectors sliced the original string with offsets computed on the lower-cased copy -> empty or mis-aligned segments, wrong length labels, bogus multi-word splits', {'password': '\u0130@a.comx', 'segments': "[('\u0130@a.com','E'),('','O0')]"}, 'F-C05')
 finding('C05', 'keyboard-walk-recursion-depth', 'password made of ~1000 separate keyboard walks: detect_keyboard_walk recurses once per walk and overflows the interpreter stack -> RecursionError aborts parsing (F-C05b); only the thorough tier generates such input', {'password': "'1qaz2wsx3edc4rfv' * 250"}, 'F-C05b')
 
